@@ -244,11 +244,240 @@ static std::string hSession(const Req& r) {
     return out;
 }
 
+// ---------------------------------------------------------------------------------------------
+// kind=ledger (C18): every object is constructed with a recording MemoryManager; after the lifetime script the ledger must be empty,
+// and it must never have seen a foreign / repeated pointer.
+// ---------------------------------------------------------------------------------------------
+#include <unordered_map>
+struct Ledger : public MemoryManager {
+    std::unordered_map<void*, size_t> live; long allocs = 0, frees = 0; long long bytes = 0;
+    std::vector<std::string> violations; const char* name;
+    Ledger(const char* n) : name(n) {}
+    MemoryManager* getExceptionMemoryManager() { return this; }
+    void* allocate(XMLSize_t size) {
+        void* p = malloc(size ? size : 1);
+        if (!p) throw OutOfMemoryException();
+        live[p] = size; allocs++; bytes += (long long)size; return p;
+    }
+    void deallocate(void* p) {
+        if (!p) return;
+        std::unordered_map<void*, size_t>::iterator it = live.find(p);
+        if (it == live.end()) { if (violations.size() < 5) violations.push_back(std::string("deallocate of a pointer this manager does not own (foreign or repeated) in ledger ") + name); return; }
+        live.erase(it); frees++; free(p);
+    }
+    std::string report() {
+        std::string o = std::string("LEDGER\t") + name + "\t" + std::to_string(allocs) + "\t" + std::to_string(frees) + "\t" + std::to_string(live.size()) + "\t" + std::to_string(violations.size()) + "\n";
+        for (size_t i = 0; i < violations.size(); i++) o += "VIOL\t" + violations[i] + "\n";
+        if (!live.empty()) { size_t tot = 0; for (std::unordered_map<void*, size_t>::iterator it = live.begin(); it != live.end(); ++it) tot += it->second; o += "LEAK\t" + std::string(name) + "\t" + std::to_string(live.size()) + " blocks\t" + std::to_string(tot) + " bytes\n"; }
+        return o;
+    }
+    void drop() { for (std::unordered_map<void*, size_t>::iterator it = live.begin(); it != live.end(); ++it) free(it->first); live.clear(); }   // keep LSan quiet after reporting
+};
+
+// one lifetime script on one ledger; returns the number of handler callbacks of the last run
+static long ledgerScript(const Req& r, Ledger& L, int mode, long arg, std::string& note) {
+    std::string api = get(r, "api", "sax2"); Feat f(get(r, "feat"));
+    const std::string& doc = r.find("doc")->second;
+    long reuse = geti(r, "reuse", 1); bool adopt = geti(r, "adopt", 0) != 0; bool releaseAfter = geti(r, "releaseafter", 0) != 0; bool usePool = geti(r, "pool", 0) != 0;
+    long nEvents = 0;
+    EntStore st; st.load(r);
+    XMLGrammarPoolImpl* pool = usePool ? new (&L) XMLGrammarPoolImpl(&L) : 0;
+    std::vector<DOMDocument*> docs;
+    {
+        SecurityManager sm; sm.setEntityExpansionLimit(1000);
+        MemResolver res(st); MemLSResolver lres(st);
+        X sysx("mem:/doc.xml");
+        if (api == "sax1" || api == "sax2") {
+            CapSAXParser* p1 = api == "sax1" ? new (&L) CapSAXParser(0, &L, pool) : 0;
+            CapSAX2* p2 = api == "sax2" ? new (&L) CapSAX2(&L, pool) : 0;
+            if (p1) { configClassic(*p1, f, &sm); p1->setXMLEntityResolver(&res); } else { configSAX2(*p2, f, &sm); p2->setXMLEntityResolver(&res); }
+            for (long k = 0; k < reuse; k++) {
+                Dump d; bool last = k == reuse - 1; if (mode == 2 && last) d.throwAt = arg;
+                Sax1Dump h1(d); Sax2Dump h2(d);
+                if (p1) { p1->setDocumentHandler(&h1); p1->setDTDHandler(&h1); p1->setErrorHandler(&h1); }
+                else { p2->setContentHandler(&h2); p2->setLexicalHandler(&h2); p2->setDeclarationHandler(&h2); p2->setDTDHandler(&h2); p2->setErrorHandler(&h2); }
+                ChunkSource src(doc, std::vector<size_t>(), sysx.c());
+                try {
+                    if (mode == 1 && last) { XMLPScanToken tok; bool ok = p1 ? p1->parseFirst(src, tok) : p2->parseFirst(src, tok);
+                        if (ok) { long j = 0; while (j < arg && (p1 ? p1->parseNext(tok) : p2->parseNext(tok))) j++; if (geti(r, "noreset", 0) == 0) { if (p1) p1->parseReset(tok); else p2->parseReset(tok); } } }
+                    else { if (p1) p1->parse(src); else p2->parse(src); }
+                }
+                XV_CATCH_ALL(d)
+                nEvents = d.nEvents;
+                if (d.out.find("EXC\tFOREIGN") != std::string::npos) note += "FOREIGN-EXCEPTION ";
+            }
+            delete p1; delete p2;
+        } else if (api == "dom") {
+            CapDOMParser* p = new (&L) CapDOMParser(0, &L, pool); configDOM(*p, f, &sm); p->setXMLEntityResolver(&res);
+            for (long k = 0; k < reuse; k++) {
+                Dump d; bool last = k == reuse - 1; Sax1Dump eh(d); p->setErrorHandler(&eh);
+                ChunkSource src(doc, std::vector<size_t>(), sysx.c());
+                try {
+                    if (mode == 1 && last) { XMLPScanToken tok; if (p->parseFirst(src, tok)) { long j = 0; while (j < arg && p->parseNext(tok)) j++; if (geti(r, "noreset", 0) == 0) p->parseReset(tok); } }
+                    else p->parse(src);
+                }
+                XV_CATCH_ALL(d)
+                p->setErrorHandler(0);
+                if (adopt && p->getDocument() && !(mode == 1 && last)) { DOMDocument* dd = p->adoptDocument(); if (dd) docs.push_back(dd); }
+                if (geti(r, "resetdocpool", 0) && k == 0) p->resetDocumentPool();
+            }
+            if (!releaseAfter) { for (size_t i = 0; i < docs.size(); i++) docs[i]->release(); docs.clear(); }
+            delete p;
+            for (size_t i = 0; i < docs.size(); i++) docs[i]->release();
+        } else {   // domls
+            CapDOMLS* p = new (&L) CapDOMLS(0, &L, pool); configDOMLS(*p, f, &sm);
+            LSErr eh; p->getDomConfig()->setParameter(XMLUni::fgDOMErrorHandler, &eh); p->getDomConfig()->setParameter(XMLUni::fgDOMResourceResolver, &lres);
+            for (long k = 0; k < reuse; k++) {
+                Dump d; ChunkSource src(doc, std::vector<size_t>(), sysx.c()); Wrapper4InputSource in(&src, false);
+                try { p->parse(&in); }
+                XV_CATCH_ALL(d)
+            }
+            p->release();
+        }
+    }
+    delete pool;
+    return nEvents;
+}
+
+static std::string hLedger(const Req& r) {
+    std::string out;
+    long kmax = geti(r, "kmax", 0);            // enumerate the handler-exception point k = 1..min(K, kmax) / abandon point j = 0..kmax
+    int mode0 = (int)geti(r, "mode", 0); long arg0 = geti(r, "arg", 0);
+    std::vector<std::pair<int, long> > runs;
+    runs.push_back(std::make_pair(mode0, arg0));
+    {   // clean run first (gives K)
+        Ledger A("A"); std::string note; long K = ledgerScript(r, A, mode0, arg0, note);
+        out += "RUN\t" + std::to_string(mode0) + "\t" + std::to_string(arg0) + "\tK=" + std::to_string(K) + "\t" + note + "\n" + A.report(); A.drop();
+        std::string api = get(r, "api", "sax2");
+        if (kmax > 0) {
+            if (api == "sax1" || api == "sax2") for (long k = 1; k <= K && k <= kmax; k++) runs.push_back(std::make_pair(2, k));
+            if (api != "domls") for (long j = 0; j <= kmax && j <= K + 2; j += (api == "dom" ? 1 : 3)) runs.push_back(std::make_pair(1, j));
+        }
+    }
+    for (size_t i = 1; i < runs.size(); i++) {
+        Ledger A("A"); std::string note; ledgerScript(r, A, runs[i].first, runs[i].second, note);
+        out += "RUN\t" + std::to_string(runs[i].first) + "\t" + std::to_string(runs[i].second) + "\t\t" + note + "\n" + A.report(); A.drop();
+    }
+    if (geti(r, "twin", 0)) {
+        // two managers in one process: a second script with its own ledger runs between construction and destruction of objects of the first
+        Ledger A("A"), B("B"); std::string note;
+        {
+            XMLGrammarPoolImpl* poolA = new (&A) XMLGrammarPoolImpl(&A);
+            ledgerScript(r, B, mode0, arg0, note);
+            CapDOMParser* pa = new (&A) CapDOMParser(0, &A, poolA); Feat f(get(r, "feat")); SecurityManager sm; configDOM(*pa, f, &sm);
+            EntStore st; st.load(r); MemResolver res(st); pa->setXMLEntityResolver(&res);
+            Dump d; Sax1Dump eh(d); pa->setErrorHandler(&eh); X sysx("mem:/doc.xml"); ChunkSource src(r.find("doc")->second, std::vector<size_t>(), sysx.c());
+            try { pa->parse(src); } XV_CATCH_ALL(d)
+            ledgerScript(r, B, 0, 0, note);
+            delete pa; delete poolA;
+        }
+        out += "RUN\ttwin\t0\t\t" + note + "\n" + A.report() + B.report(); A.drop(); B.drop();
+    }
+    return out;
+}
+
+// ---------------------------------------------------------------------------------------------
+// kind=access (C19): parse a document that lives in a real directory tree (written by the driver) and record, in ONE sequence,
+// every file the library opens (wrapper around XMLPlatformUtils::fgFileMgr), every URL given to the net accessor (wrapper around
+// fgNetAccessor; nothing is fetched), and every identifier offered to the application's entity resolver.
+//   fields: top (path of the document), api, feat, resolver = none | null | subst ; subst:<suffix> = bytes returned by the resolver for
+//           system ids ending in <suffix>; viamem=1: the document is handed over as memory buffer with the path as system id
+// ---------------------------------------------------------------------------------------------
+#include <xercesc/util/XMLFileMgr.hpp>
+#include <xercesc/util/XMLNetAccessor.hpp>
+#include <xercesc/util/XMLURL.hpp>
+#include <xercesc/util/XMLNetAccessor.hpp>
+static std::vector<std::string>* g_accessLog = 0;
+struct LogFileMgr : public XMLFileMgr {
+    XMLFileMgr* inner;
+    LogFileMgr(XMLFileMgr* i) : inner(i) {}
+    ~LogFileMgr() { delete inner; }
+    FileHandle fileOpen(const XMLCh* path, bool toWrite, MemoryManager* const m) { if (g_accessLog) g_accessLog->push_back("OPEN\t" + narrow(path)); return inner->fileOpen(path, toWrite, m); }
+    FileHandle fileOpen(const char* path, bool toWrite, MemoryManager* const m) { if (g_accessLog) g_accessLog->push_back(std::string("OPEN\t") + path); return inner->fileOpen(path, toWrite, m); }
+    FileHandle openStdIn(MemoryManager* const m) { if (g_accessLog) g_accessLog->push_back("OPEN\t<stdin>"); return inner->openStdIn(m); }
+    void fileClose(FileHandle f, MemoryManager* const m) { inner->fileClose(f, m); }
+    void fileReset(FileHandle f, MemoryManager* const m) { inner->fileReset(f, m); }
+    XMLFilePos curPos(FileHandle f, MemoryManager* const m) { return inner->curPos(f, m); }
+    XMLFilePos fileSize(FileHandle f, MemoryManager* const m) { return inner->fileSize(f, m); }
+    XMLSize_t fileRead(FileHandle f, XMLSize_t n, XMLByte* b, MemoryManager* const m) { return inner->fileRead(f, n, b, m); }
+    void fileWrite(FileHandle f, XMLSize_t n, const XMLByte* b, MemoryManager* const m) { inner->fileWrite(f, n, b, m); }
+    XMLCh* getFullPath(const XMLCh* const p, MemoryManager* const m) { return inner->getFullPath(p, m); }
+    XMLCh* getCurrentDirectory(MemoryManager* const m) { return inner->getCurrentDirectory(m); }
+    bool isRelative(const XMLCh* const p, MemoryManager* const m) { return inner->isRelative(p, m); }
+};
+struct LogNetAccessor : public XMLNetAccessor {
+    const XMLCh* getId() const { static const XMLCh id[] = { chLatin_x, chLatin_v, 0 }; return id; }
+    BinInputStream* makeNew(const XMLURL& url, const XMLNetHTTPInfo* = 0) {
+        if (g_accessLog) g_accessLog->push_back("NET\t" + narrow(url.getURLText()));
+        ThrowXML1(NetAccessorException, XMLExcepts::NetAcc_TargetResolution, url.getHost() ? url.getHost() : XMLUni::fgZeroLenString);
+    }
+};
+struct AccessResolver : public XMLEntityResolver {
+    std::string mode; std::map<std::string, std::string> subst;
+    InputSource* resolveEntity(XMLResourceIdentifier* ri) {
+        std::string sys = narrow(ri->getSystemId()), base = narrow(ri->getBaseURI()), loc = narrow(ri->getSchemaLocation()), ns = narrow(ri->getNameSpace());
+        if (g_accessLog) g_accessLog->push_back("RES\t" + std::to_string((int)ri->getResourceIdentifierType()) + "\t" + sys + "\t" + base + "\t" + loc + "\t" + ns);
+        if (mode == "subst") {
+            const std::string& key = sys.empty() ? loc : sys;
+            for (std::map<std::string, std::string>::iterator it = subst.begin(); it != subst.end(); ++it)
+                if (key.size() >= it->first.size() && key.compare(key.size() - it->first.size(), it->first.size(), it->first) == 0) {
+                    if (g_accessLog) g_accessLog->push_back("SUBST\t" + key);
+                    return new MemBufInputSource((const XMLByte*)it->second.data(), it->second.size(), X("mem:/subst/" + it->first).c(), false);
+                }
+        }
+        return 0;
+    }
+};
+struct AccessLSResolver : public DOMLSResourceResolver {
+    AccessResolver* r;
+    DOMLSInput* resolveResource(const XMLCh* const type, const XMLCh* const ns, const XMLCh* const pub, const XMLCh* const systemId, const XMLCh* const baseURI) {
+        std::string sys = narrow(systemId), base = narrow(baseURI);
+        if (g_accessLog) g_accessLog->push_back("RES\t-1\t" + sys + "\t" + base + "\t\t" + narrow(ns));
+        if (r->mode == "subst")
+            for (std::map<std::string, std::string>::iterator it = r->subst.begin(); it != r->subst.end(); ++it)
+                if (sys.size() >= it->first.size() && sys.compare(sys.size() - it->first.size(), it->first.size(), it->first) == 0) {
+                    if (g_accessLog) g_accessLog->push_back("SUBST\t" + sys);
+                    return new Wrapper4InputSource(new MemBufInputSource((const XMLByte*)it->second.data(), it->second.size(), X("mem:/subst/" + it->first).c(), false), true);
+                }
+        return 0;
+    }
+};
+static std::string hAccess(const Req& r) {
+    static LogFileMgr* lfm = 0; static LogNetAccessor* lna = 0;
+    if (!lfm) { lfm = new LogFileMgr(XMLPlatformUtils::fgFileMgr); XMLPlatformUtils::fgFileMgr = lfm; lna = new LogNetAccessor(); delete XMLPlatformUtils::fgNetAccessor; XMLPlatformUtils::fgNetAccessor = lna; }
+    std::vector<std::string> log; g_accessLog = &log;
+    std::string api = get(r, "api", "sax2"), top = get(r, "top"); Feat f(get(r, "feat"));
+    AccessResolver res; res.mode = get(r, "resolver", "none");
+    for (Req::const_iterator it = r.begin(); it != r.end(); ++it) if (it->first.compare(0, 6, "subst:") == 0) res.subst[it->first.substr(6)] = it->second;
+    AccessLSResolver lres; lres.r = &res;
+    SecurityManager sm; long lim = f.i("secmgr", -1); if (lim >= 0) sm.setEntityExpansionLimit((XMLSize_t)lim); SecurityManager* smp = lim >= 0 ? &sm : 0;
+    Dump d;
+    InputSource* src = 0; std::string mem;
+    if (geti(r, "viamem", 0)) { FILE* fp = fopen(top.c_str(), "rb"); if (fp) { char b[65536]; size_t n; while ((n = fread(b, 1, sizeof b, fp)) > 0) mem.append(b, n); fclose(fp); }
+                               src = new MemBufInputSource((const XMLByte*)mem.data(), mem.size(), X(top).c(), false); }
+    else src = new LocalFileInputSource(X(top).c());
+    try {
+        if (api == "sax1") { CapSAXParser p; p.xd = &d; configClassic(p, f, smp); Sax1Dump h(d); p.setDocumentHandler(&h); p.setDTDHandler(&h); p.setErrorHandler(&h); if (res.mode != "none") p.setXMLEntityResolver(&res); p.parse(*src); }
+        else if (api == "sax2") { CapSAX2 p; p.xd = &d; configSAX2(p, f, smp); Sax2Dump h(d); p.setContentHandler(&h); p.setLexicalHandler(&h); p.setDeclarationHandler(&h); p.setDTDHandler(&h); p.setErrorHandler(&h); if (res.mode != "none") p.setXMLEntityResolver(&res); p.parse(*src); }
+        else if (api == "dom") { CapDOMParser p; p.xd = &d; configDOM(p, f, smp); Sax1Dump eh(d); p.setErrorHandler(&eh); if (res.mode != "none") p.setXMLEntityResolver(&res); p.parse(*src); if (p.getDocument()) { DomDumpOpts o; dumpDomNode(d, p.getDocument(), o); } }
+        else { CapDOMLS p; p.xd = &d; configDOMLS(p, f, smp); LSErr eh; p.getDomConfig()->setParameter(XMLUni::fgDOMErrorHandler, &eh); if (res.mode != "none") p.getDomConfig()->setParameter(XMLUni::fgDOMResourceResolver, &lres);
+               Wrapper4InputSource in(src, false); DOMDocument* dd = p.parse(&in); if (dd) { DomDumpOpts o; dumpDomNode(d, dd, o); } }
+    }
+    XV_CATCH_ALL(d)
+    delete src;
+    g_accessLog = 0;
+    std::string out = d.finish();
+    for (size_t i = 0; i < log.size(); i++) out += "#" + std::to_string(i) + "\t" + log[i] + "\n";
+    return out;
+}
+
 int main() {
     XMLPlatformUtils::Initialize();
     std::map<std::string, Handler> hs;
     hs["parse"] = hParse;
     hs["session"] = hSession;
+    hs["ledger"] = hLedger;
+    hs["access"] = hAccess;
     int rc = serve(hs);
     XMLPlatformUtils::Terminate();
     return rc;
